@@ -26,9 +26,13 @@ def rust_ident(name):
 
 
 def field_attrs(rename, spelling):
-    if rename in (None, "none", ""):
+    if rename == "empty":          # MC_C01!RenameOf("empty"): serde(rename = "")
+        rename = ""
+    elif rename in (None, "none", ""):
         return {"merged": [], "split": ["#[serde(default)]"], "reversed": ['#[serde(alias = "zz")]'],
                 "extra": ["/// doc", '#[cfg(feature = "f")]']}.get(spelling, [])
+    if rename in (None, "none"):
+        raise ValueError(rename)
     r = f'rename = "{rename}"'
     return {"merged": [f"#[serde({r})]"],
             "split": ["#[serde(default)]", f"#[serde({r})]"],
@@ -83,7 +87,7 @@ def ident_class(name):
 def rename_class(r):
     if r in (None, "none", ""):
         return "none"
-    return "dashed" if "-" in r else "keyword" if r in ("class", "default", "type") else "dollar" if "$" in r else "plain"
+    return "empty" if r == "empty" else "dashed" if "-" in r else "keyword" if r in ("class", "default", "type") else "dollar" if "$" in r else "plain"
 
 
 def signature(lang, case, kind, which="field"):
@@ -98,6 +102,8 @@ def judge_obs(chk, lang, case, members, expected_keys, prefix=""):
     keys = [m["key"] for m in members]
     if lang == "scala" and any("-" in k for k in expected_keys):
         return   # Scala carries no key binding: dashed keys are outside the property
+    if lang.startswith("go") and case.get("rename") == "empty":
+        return   # a Go struct tag cannot name the empty key (`json:""` means "use the field name"): outside what Go output can carry
     chk.judged((lang, prefix, str(case)))
     if len(keys) != len(expected_keys):
         chk.mismatch(signature(lang, case, "member-count"), f"{lang}: members {keys}, required {expected_keys}", {"case": case, "lang": lang, "prefix": prefix}, expected_keys, keys)
@@ -140,7 +146,7 @@ def run_cases(chk, cases, prefix_cfgs):
                 if ms and len(ms) == 2 and case.get("layout", "two") == "two":
                     ident = case["ident"][2:] if case["ident"].startswith("r#") else case["ident"]
                     for m, (idt, ren) in zip(ms, ((ident, case["rename"]), ("plain_one", "none"))):
-                        events.append({"lang": lang0, "ident": list(idt), "rename": [] if ren in ("none", None) else list(ren), "rule": case["rule"], "key": list(m["key"]),
+                        events.append({"lang": lang0, "ident": list(idt), "rename": ["<none>"] if ren in ("none", None, "") else [] if ren == "empty" else list(ren), "rule": case["rule"], "key": list(m["key"]),
                                        "kind": case["kind"], "fields_rule": case.get("enum_fields_rule", "none") if case["kind"] == "variant" else "none"})
                         meta.append((lang, case, prefix))
     return events, meta
@@ -154,7 +160,8 @@ def run(chk):
                 "rules judged by Trace_C01. distinct = (language, prefix, case).")
     chk.assumptions = ["`key` of a member = explicit binding if the generated code has one (quoted property, @SerialName, CodingKeys raw value, json tag, "
                        "Field(alias)), else the identifier itself - as reported by the extractors",
-                       "Scala: cases whose key contains '-' are out of scope (no binding exists in Scala output)"]
+                       "Scala: cases whose key contains '-' are out of scope (no binding exists in Scala output)",
+                       "Go: serde(rename = \"\") is out of scope (an empty name in a struct tag means the field name; encoding/json has no spelling for an empty key)"]
     res = common.run_tlc("MC_C01", cfg="MC_C01_thorough" if thorough else "MC_C01_quick", workers=4, timeout=900)
     chk.add_tlc("MC_C01", res)
     chk.exhaustive = True
